@@ -77,6 +77,32 @@ pub fn run(rep: &mut Report, thorough: bool) {
             flow(i >= 65536, 1, 1).icmp_echo(0xbeef, i as u16, b"data")
         });
         crate::props::pairs::pair_histories(rep, cfg, &format!("pair-histories-{}", tag), &crate::props::pairs::l2l4_frames());
+        // soak: 70 000 eliciting frames of 8 kinds into ONE responder process (beyond every 8- and
+        // 16-bit frame counter), each judged by the reference model
+        if tag == "plain" || tag == "lists" {
+            let t0 = std::time::Instant::now();
+            let stage = format!("soak-{}", tag);
+            let n = 70_000u32;
+            let c4 = v4(cli4());
+            let s4 = v4(srv4());
+            let cmds: Vec<crate::driver::Cmd> = (0..n)
+                .map(|k| {
+                    let v6 = k & 8 != 0;
+                    let f = flow(v6, (k >> 4) as u16, 80);
+                    crate::driver::Cmd::Frame(match k % 8 {
+                        0 => eth(&[0xff; 6], &MAC_CLI, ET_ARP, &Arp::request(MAC_CLI, c4, s4).bytes()),
+                        1 | 2 => flow(k % 8 == 2, 1, 1).icmp_echo(k as u16, (k >> 16) as u16, b"soak"),
+                        3 => eth(&MAC_SRV, &MAC_CLI, ET_IP6, &nd_ns(&cli6(), &srv6(), &srv6(), &slla(&MAC_CLI), 0)),
+                        4 | 5 => f.tcp(k, 0, F_SYN, b""),
+                        6 => f.udp(&stun_magic(&[], &ID12)),
+                        _ => f.tcp(k, 7, F_FIN | F_ACK, b""),
+                    })
+                })
+                .collect();
+            let opts = crate::engine::RunOpts::new(&stage).stateful().chunk(1);
+            crate::engine::run(cfg, 1, &opts, |_| cmds.clone(), |_it: &crate::engine::Item, _s: &mut crate::engine::Sink| {}, &mut rep.sink);
+            rep.stage(&stage, "one responder process fed 70 000 eliciting frames (ARP request, echo v4 / v6 with running identifiers, ND-NS, SYN v4 / v6 with running ports and sequence numbers, STUN datagram, FIN|ACK), monitored", n as u64, t0);
+        }
         sweep_frames(rep, cfg, &format!("echo6-sources-{}", tag), "ICMPv6 echo from 12 source address forms x 3 destinations", 12 * 3, |i| {
             let srcs: Vec<Ip> = vec![cli6(), Ip::parse("fe80::1"), Ip::parse("::1"), Ip::parse("::ffff:10.0.0.9"), cli6b(), Ip::parse("::ffff:10.66.6.6"), Ip::parse("::10.66.6.6"), Ip::parse("2002:a42:606::1"), Ip::parse("64:ff9b::10.66.6.6"), Ip::parse("::a42:606"), Ip::parse("2001:db8::bad:1"), Ip::parse("::ffff:0.0.0.0")];
             let mut f = flow6(1, 1);
